@@ -102,6 +102,7 @@ def run(ctx):
                         "ETXs, a skipped queue, a wrong outbound set or ETX-set root must be rejected")
     finally:
         shutil.rmtree(dbdir, ignore_errors=True)
+    zc.check_aborted(ctx)
     vlib.write_evidence(ctx, "model_checking", cov, [
         "single subordinate chain per level (deployed topology): routing between several zones/regions is covered by the model only",
         "the minimum-inclusion rule is gas based; the trace check only demands 'queue emptied or >= 5 ETXs executed'",
